@@ -205,6 +205,8 @@ class VCtx(object):
         self.CF = Cond(mgr.FALSE)
         self.lift_count = 0
         self.debug = False
+        import os
+        self.tagcheck = bool(os.environ.get("VERIF_TAGCHECK"))
         self.combo_count = 0
 
     # -- conditions ---------------------------------------------------------------------------
@@ -362,6 +364,18 @@ class VCtx(object):
             return UNBOUND
         if len(res) == 1:
             return res[0][1]
+        if self.tagcheck:
+            # exclusivity of the alternatives on the simulation patterns
+            acc = 0
+            for g, _ in res:
+                if acc & g.sig:
+                    raise AssertionError("mk_union: alternatives overlap on a simulation pattern")
+                acc |= g.sig
+            if total and acc != m.ALL:
+                raise AssertionError("mk_union: union flagged total does not cover every pattern")
+            bad = m.validate_tags()
+            if bad:
+                raise AssertionError("inconsistent partition tags: %r" % (bad[:3],))
         if partition and len(res) > 2:
             m.new_partition([g for g, _ in res], total=total)
         elif partition and len(res) == 2 and not (res[0][0].tags and res[1][0].tags):
